@@ -24,11 +24,13 @@ COLSPECS_FULL = [
     {"a": "TEXT"},
     "a:int,b:text",
     ["a", "b"],
+    {"T": "INT"},
 ]
-COLSPECS_QUICK = [None, {"a": "INT"}, {"b": "TEXT"}]
+# the last spec names a column like a table ("T"): table-name and column-name normalisation share caches
+COLSPECS_QUICK = [None, {"a": "INT"}, {"b": "TEXT"}, {"T": "INT"}]
 
-KINDS_FULL = ["names", "type_a", "type_b", "has_a", "has_b", "find_TF", "find_TT", "find_FF", "find_FT", "names_tbl"]
-KINDS_QUICK = ["names", "type_a", "find_FT"]
+KINDS_FULL = ["names", "type_a", "type_b", "has_a", "has_b", "has_T", "find_TF", "find_TT", "find_FF", "find_FT", "names_tbl"]
+KINDS_QUICK = ["names", "type_a", "find_FT", "has_T"]
 
 
 def q(name: str, dialect: str) -> str:
@@ -159,8 +161,10 @@ def configs(quick: bool):
     """(dialect, depth, normalize, init_name, init_map, alphabet kind, max history length)"""
     out = []
     if quick:
-        for dialect in ["", "snowflake", "mysql"]:
+        for dialect in ["", "snowflake", "mysql", "bigquery"]:
             for depth in (1, 2, 3):
+                if dialect == "bigquery" and depth != 2:
+                    continue  # BigQuery's table-specific identifier rules: one depth is enough in quick
                 for normalize in (True, False):
                     if normalize is False and dialect not in ("", "snowflake"):
                         continue
